@@ -126,6 +126,13 @@ def make_model(rng):
         directives.append({"name": "stag", "args": [], "locations": ["SCHEMA"]}); schema_ext = "stag"
     rng.shuffle(exts)
     M = {"defs": defs, "exts": exts, "directives": directives, "schema_ext_directive": schema_ext, "query": full["query"], "mutation": full.get("mutation"), "subscription": full.get("subscription")}
+    # names with ONE leading underscore are ordinary names (only `__` is reserved)
+    if rng.random() < 0.3:
+        cand_ = [d["name"] for d in M["defs"] if d["kind"] in ("object", "input", "enum", "union") and d["name"] not in (M["query"], M["mutation"], M["subscription"])]
+        if cand_:
+            old_ = rng.choice(cand_)
+            js = json.dumps(M).replace(f'"{old_}"', f'"_{old_}"')
+            M = json.loads(js)
     # renamed roots
     if rng.random() < 0.3:
         ren = {"Query": "RootQ"}
